@@ -198,14 +198,37 @@ func lbClassify(f lbFinding) lbClass {
 		c, ok := v.(*ssa.Const)
 		return ok && c.IsNil()
 	}
-	h, fr := constNil(f.HeldRet.Results[n-1]), constNil(f.FreeRet.Results[n-1])
+	// over ALL exits: a conditional acquire keeps the lock exactly on exits
+	// that report success; a leak keeps it on an exit that reports an error
+	// while some exit that reports success has released it
+	heldNil, heldErr, freeNil, freeErr := 0, 0, 0, 0
+	for _, r := range f.HeldRets {
+		if len(r.Results) != n {
+			return lbUnknown
+		}
+		if constNil(r.Results[n-1]) {
+			heldNil++
+		} else {
+			heldErr++
+		}
+	}
+	for _, r := range f.FreeRets {
+		if len(r.Results) != n {
+			return lbUnknown
+		}
+		if constNil(r.Results[n-1]) {
+			freeNil++
+		} else {
+			freeErr++
+		}
+	}
 	switch {
-	case !h && fr:
-		return lbLeak // the exit that keeps the lock reports an error, the one that releases it reports success
-	case h && !fr:
+	case heldErr > 0 && freeNil > 0 && heldNil == 0:
+		return lbLeak // kept on an error exit, released on a success exit
+	case heldNil > 0 && heldErr == 0 && freeNil == 0 && freeErr > 0:
 		return lbAcquireOnSuccess
-	case h && fr && n == 1:
-		return lbLeak // both exits report success and nothing else is returned
+	case heldNil > 0 && freeNil > 0 && heldErr == 0 && freeErr == 0 && n == 1:
+		return lbLeak // every exit reports success and nothing else is returned
 	}
 	return lbUnknown
 }
